@@ -356,7 +356,10 @@ def fresh_child(ctx, fc, v, at, fc_of, depth=0):
         return True, "parameter; all callers pass fresh children"
     if entry or not ds:
         return False, "value may come from outside the function"
+    not_none = any(atom == ("is not", v.id, "None") and not fc.stores_between(t, at, {v.id}, ()) for atom, t, _lab, _e in C.facts_at(fc.cfg, at))
     for n, r in ds:
+        if not_none and r[0] == "assign" and isinstance(r[1], ast.Constant) and r[1].value is None:
+            continue        # the value is used under `v is not None`: the definition `v = None` does not reach this use as a value
         if r[0] == "for":
             it = r[1]
             src = norm_src(it)
